@@ -110,6 +110,9 @@ fn expected(stage: &str, b: &str, timeout: bool, external: bool) -> Vec<&'static
     }
 }
 
+/// Length of a correct server's stream in this scenario (Start, Tune, OpenOk, CloseOk).
+const HS_STREAM_LEN: usize = 141;
+
 impl Scenario for Hs {
     fn name(&self) -> &'static str {
         "handshake"
@@ -143,6 +146,18 @@ impl Scenario for Hs {
             }
         }
         v.push(json!({"stage": "open", "b": "normal", "timeout": true, "auth": "plain", "info": false, "faults": true}));
+        // every cut of a correct server's stream: the read stops there (would-block) and goes on
+        // with the next delivery; and the stream ending there, seen in the same read pass as the
+        // last byte or in a later one
+        for k in 1..HS_STREAM_LEN {
+            v.push(json!({"stage": "open", "b": "normal", "timeout": false, "auth": "plain", "info": false, "cut": k}));
+        }
+        for k in 0..HS_STREAM_LEN {
+            v.push(json!({"stage": "open", "b": "normal", "timeout": false, "auth": "plain", "info": false, "eof_at": k}));
+            if k > 0 {
+                v.push(json!({"stage": "open", "b": "normal", "timeout": false, "auth": "plain", "info": false, "eof_at": k, "same_pass": true}));
+            }
+        }
         if tier == "thorough" {
             for stage in ["start", "startok", "open"] {
                 for b in ["eof", "close", "secure", "malformed"] {
@@ -152,7 +167,10 @@ impl Scenario for Hs {
         }
         v
     }
-    fn bound(&self, tier: &str, _p: &Value) -> usize {
+    fn bound(&self, tier: &str, p: &Value) -> usize {
+        if !p["cut"].is_null() || !p["eof_at"].is_null() {
+            return if tier == "thorough" { 1 } else { 0 };
+        }
         if tier == "thorough" {
             3
         } else {
@@ -180,6 +198,15 @@ impl Scenario for Hs {
         if p["faults"] == true {
             use vh::sim::world::FaultKind;
             cfg.faults = vec![FaultKind::ReadEof, FaultKind::ReadErr, FaultKind::WriteErr];
+        }
+        if let Some(k) = p["cut"].as_u64() {
+            cfg.deliver_cuts = false;
+            cfg.force_cuts = vec![k as usize];
+        }
+        if let Some(k) = p["eof_at"].as_u64() {
+            cfg.deliver_cuts = false;
+            cfg.crash_after_inbound = Some((k as usize, vh::sim::world::FaultKind::ReadEof));
+            cfg.crash_with_last_byte = p["same_pass"] == true;
         }
         let timeout = p["timeout"] == true;
         let auth = p["auth"].as_str().unwrap().to_string();
@@ -234,6 +261,42 @@ impl Scenario for Hs {
             }
             if got == "open -> Err(UnexpectedSocketClose)" && !o.faults_used.iter().any(|f| *f == vh::sim::world::FaultKind::ReadEof) {
                 v.push(("handshake:socket-error-reported-as-eof".into(), format!("faults presented {:?}, open returned UnexpectedSocketClose", o.faults_used)));
+            }
+            if o.io_existed && (!o.io_gone || !o.transport_dropped) {
+                v.push(("handshake:not-released".into(), format!("io_gone={} transport_dropped={}", o.io_gone, o.transport_dropped)));
+            }
+            return v;
+        }
+        if let Some(k) = p["eof_at"].as_u64() {
+            // where the three frames of the handshake end in the server's stream
+            let b = &o.inbound;
+            let mut ends = Vec::new();
+            let mut pos = 0usize;
+            while pos + 8 <= b.len() && ends.len() < 3 {
+                let size = u32::from_be_bytes([b[pos + 3], b[pos + 4], b[pos + 5], b[pos + 6]]) as usize;
+                pos += 8 + size;
+                ends.push(pos);
+            }
+            while ends.len() < 3 {
+                ends.push(usize::MAX);
+            }
+            let k = k as usize;
+            let got: Vec<String> = main.iter().filter(|l| l.starts_with("open -> ") || l.starts_with("close -> ")).cloned().collect();
+            let ok = if k < ends[0] {
+                got == ["open -> Err(UnexpectedSocketClose)"]
+            } else if k < ends[1] {
+                // StartOk has gone out and the connection is dropped without a (whole) reply
+                got == ["open -> Err(InvalidCredentials)"]
+            } else if k < ends[2] {
+                got == ["open -> Err(UnexpectedSocketClose)"]
+            } else {
+                // OpenOk arrived: the connection exists (unless the end was seen in the very pass
+                // that read OpenOk) and then dies of the end of stream - or closes cleanly if even
+                // the CloseOk got through
+                got == ["open -> Ok", "close -> Err(UnexpectedSocketClose)"] || got == ["open -> Err(UnexpectedSocketClose)"] || (k >= b.len() && b.len() > ends[2] && got == ["open -> Ok", "close -> Ok"])
+            };
+            if !ok {
+                v.push(("handshake:cut-stream".into(), format!("server stream ends after {} bytes (frames end at {:?}): {:?}", k, ends, got)));
             }
             if o.io_existed && (!o.io_gone || !o.transport_dropped) {
                 v.push(("handshake:not-released".into(), format!("io_gone={} transport_dropped={}", o.io_gone, o.transport_dropped)));
